@@ -194,6 +194,13 @@ func (vc *VC) applyContract(x *ssa.Call, key string, fc *FuncContract, callee *s
 		comps = append(comps, c)
 	}
 	sort.Strings(comps)
+	// A callee that modifies nothing (it writes only memory it allocates
+	// itself) and returns only scalars cannot hand any of that memory to the
+	// caller: the caller-visible heap is unchanged, so no new heap versions
+	// are introduced (the allocation counter still advances).
+	if fc != nil && !fc.Extern && fc.Modifies != nil && modifiesNothing(fc) && scalarResults(sig) {
+		comps = nil
+	}
 	envPre := vc.calleeEnv(fc, callee, args, binds, nil, sig)
 	freshOnly := map[string]bool{}
 	for _, c := range comps {
@@ -861,4 +868,24 @@ func (vc *VC) lemmaFact(name string, st *State) string {
 	}
 	vc.usedExt["lemma "+name+" (proved separately as lemma:"+name+")"] = true
 	return fmt.Sprintf("(forall (%s) (=> %s %s))", strings.Join(binders, " "), and(hyp...), and(goals...))
+}
+
+func modifiesNothing(fc *FuncContract) bool {
+	for _, mc := range fc.Modifies {
+		if len(mc.Mods) > 0 {
+			return false
+		}
+	}
+	return true
+}
+
+func scalarResults(sig *types.Signature) bool {
+	for i := 0; i < sig.Results().Len(); i++ {
+		switch kindOf(sig.Results().At(i).Type()) {
+		case KInt, KBool, KStr:
+		default:
+			return false
+		}
+	}
+	return true
 }
